@@ -72,6 +72,9 @@ def scenarios(tier):
         sc.append(dict(name='del k1 || set k3', backend=b, prior=P2, actors=[W(('del', 'k1')), W(('set', 'k3', 'new3'))]))
         sc.append(dict(name='pop k2 || overwrite k1', backend=b, prior=P2, actors=[W(('pop', 'k2')), W(('set', 'k1', 'new1'))]))
         sc.append(dict(name='dump k3,k4 || load', backend=b, prior=P1, actors=[W(('dump', (('k3', 'new3'), ('k4', 'new4')))), R(('load',))]))
+        # a cache bound to the archive that synchronises its one new entry, next to a writer that overwrites another key
+        sc.append(dict(name='sync k3 || overwrite k1', backend=b, prior=P1,
+                       actors=[W(('sync', (('k3', 'new3'),))), W(('set', 'k1', 'new1'))]))
         sc.append(dict(name='set k2 || set k3 || keys', backend=b, prior=P1,
                        actors=[W(('set', 'k2', 'new2')), W(('set', 'k3', 'new3')), R(('keys',))], bound=1 if tier == 'quick' else 2))
         if tier == 'thorough':
@@ -113,6 +116,8 @@ def scenarios(tier):
                    actors=[dict(role='faulty', ops=[('set', 'k9', 2 ** 70), ('contains', 'k1')], cached=False, linger=True), W(('set', 'k3', 'new3'))], bound=1))
     sc.append(dict(name='idle after failed update || set k3', backend=b, prior=PH,
                    actors=[dict(role='faulty', ops=[('update', (('k8', 'v8'), ('k9', 2 ** 70)))], cached=False, linger=True), W(('set', 'k3', 'new3'))], bound=1))
+    sc.append(dict(name='sync k3 || overwrite k1', backend=b, prior=P1,
+                   actors=[W(('sync', (('k3', 'new3'),))), W(('set', 'k1', 'new1'))]))
     # a process that merely opens a table with a past (superseded rows) next to a writer of another key
     sc.append(dict(name='table with superseded rows: set k3 || open direct', backend=b, prior=PH, actors=[W(('set', 'k3', 'new3')), O(False)]))
     sc.append(dict(name='table with superseded rows: set k3 || open cached', backend=b, prior=PH, actors=[W(('set', 'k3', 'new3')), O(True)]))
@@ -146,7 +151,7 @@ def apply_model(state, op):
     k = op[0]
     if k == 'set':
         s[op[1]] = op[2]
-    elif k in ('update', 'dump'):
+    elif k in ('update', 'dump', 'sync'):
         s.update(dict(op[1]))
     elif k in ('del', 'pop'):
         s.pop(op[1], None)
